@@ -238,13 +238,114 @@ impl Prop for C19 {
     }
 }
 
+
+// ------------------------------------------------------------------------------------------
+// server part: RESOURCE_EXHAUSTED counts through the real binary
+// ------------------------------------------------------------------------------------------
+
+#[derive(Clone, Debug, Serialize, Deserialize)]
+pub struct SCase {
+    pub max_qps: u32,
+    pub global: u32,
+    pub clients: usize,
+    pub calls_per_client: usize,
+    /// pause (ms) in the middle of each client's calls
+    pub pause_ms: u64,
+}
+
+pub struct Srv;
+
+impl Prop for Srv {
+    type Case = SCase;
+    fn part(&self) -> &'static str {
+        "server"
+    }
+    fn shape(&self, _tier: Tier) -> RawShape {
+        RawShape { head_len: 8, chunk_len: 1, min_chunks: 0, max_chunks: 0 }
+    }
+    fn max_shrink_iters(&self) -> u32 {
+        8
+    }
+    fn rule(&self) -> String {
+        "real kyrodb_server with auth and rate limiting on: tenant max_qps {1,2,5,20} x global limit {3, 100000} x 1-4 concurrent gRPC clients of ONE tenant x 10-60 Query calls each with a 0-400 ms pause in the middle; admitted = any answer other than RESOURCE_EXHAUSTED; bound per window on the callers' clocks; non-trivial = at least one admitted and one refused call; distinct = decoded case".into()
+    }
+    fn decode(&self, raw: &Raw, _tier: Tier) -> SCase {
+        let mut t = Tape::new(&raw.head);
+        SCase { max_qps: t.pick(&[1u32, 2, 5, 20]), global: t.pick(&[100_000u32, 3, 100_000]), clients: 1 + t.below(4), calls_per_client: 10 + t.below(51), pause_ms: [0u64, 0, 120, 400][t.below(4)] }
+    }
+    fn run(&self, case: &SCase, env: &CaseEnv) -> Result<CaseReport, Failure> {
+        use crate::common::srv::{key_for, with_key, Server, SrvCfg};
+        let shard = crate::props::c10::SHARD.with(|s| *s);
+        let mut cfg = SrvCfg::default_for(4, "euclidean", true, 1_000_000);
+        cfg.rate_limit = true;
+        cfg.max_qps_global = case.global as usize;
+        for t in cfg.tenants.iter_mut() {
+            t.max_qps = case.max_qps;
+        }
+        let mut srv = Server::new(cfg, &env.dir("srv"), shard);
+        srv.start().map_err(|e| Failure::new("setup_failed", e))?;
+        let port = srv.port;
+        let key = key_for("alpha", 0xa1);
+        let mut all: Vec<Obs> = vec![];
+        let results: Vec<Vec<Obs>> = std::thread::scope(|sc| {
+            let hs: Vec<_> = (0..case.clients)
+                .map(|_| {
+                    let key = key.clone();
+                    sc.spawn(move || {
+                        let rt = tokio::runtime::Builder::new_current_thread().enable_all().build().unwrap();
+                        rt.block_on(async move {
+                            let mut out = vec![];
+                            let ep = tonic::transport::Endpoint::from_shared(format!("http://127.0.0.1:{}", port)).unwrap();
+                            let Ok(ch) = ep.connect().await else { return out };
+                            let mut c = kyrodb_engine::proto::kyro_db_service_client::KyroDbServiceClient::new(ch);
+                            for i in 0..case.calls_per_client {
+                                if i == case.calls_per_client / 2 && case.pause_ms > 0 {
+                                    tokio::time::sleep(Duration::from_millis(case.pause_ms)).await;
+                                }
+                                let before = Instant::now();
+                                let r = c.query(with_key(kyrodb_engine::proto::QueryRequest { doc_id: 1, include_embedding: false, namespace: String::new() }, Some(&key))).await;
+                                let after = Instant::now();
+                                let admitted = match &r {
+                                    Ok(_) => true,
+                                    Err(s) => s.code() != tonic::Code::ResourceExhausted,
+                                };
+                                out.push(Obs { tenant: 0, before, after, admitted });
+                            }
+                            out
+                        })
+                    })
+                })
+                .collect();
+            hs.into_iter().map(|h| h.join().unwrap_or_default()).collect()
+        });
+        srv.stop_kill();
+        for r in results {
+            all.extend(r);
+        }
+        if all.is_empty() {
+            return Err(Failure::new("setup_failed", "no call reached the server".to_string()));
+        }
+        check_windows(&all, case.max_qps as f64, "tenant alpha (server)", |_| true)?;
+        if case.global < 100_000 {
+            check_windows(&all, case.global as f64, "global (server)", |_| true)?;
+        }
+        let mut rep = CaseReport::default();
+        rep.nontrivial = all.iter().any(|o| o.admitted) && all.iter().any(|o| !o.admitted);
+        rep.count("calls", all.len() as u64);
+        rep.count("admitted", all.iter().filter(|o| o.admitted).count() as u64);
+        Ok(rep)
+    }
+}
+
 pub fn main(ctx: &Ctx) {
     ctx.assume("bounds use the caller's clock from before the first to after the last call of each window (plus 0.001 token for floating-point rounding), so elapsed time can only loosen them");
     ctx.assume("the refund and no-false-refusal rules are judged on single-threaded scripts only");
     run_committed_replays(ctx, &C19);
     run_pbt(ctx, &C19, ctx.tier.pick(2_000, 30_000));
+    run_committed_replays(ctx, &Srv);
+    run_pbt(ctx, &Srv, ctx.tier.pick(64, 800));
 }
 
 pub fn replay(ctx: &Ctx, v: &serde_json::Value) -> Option<i32> {
-    replay_file(ctx, &C19, v)
+    replay_file(ctx, &C19, v).or_else(|| replay_file(ctx, &Srv, v))
 }
